@@ -205,3 +205,30 @@ Proof.
   split; [vm_compute; reflexivity|]. vm_compute. split; reflexivity.
 Qed.
 Print Assumptions C08_own_replies_verify_refuted.
+
+(* ---------------------------------------------------------------------------------------------
+   5. The requests the BNG itself sends are verifiable by the server ("the request that was actually sent"):
+   an Access-Request built by Authenticate/exchange keeps its authenticator and carries a valid
+   Message-Authenticator (RFC 3579); an Accounting-Request carries a valid Request Authenticator (RFC 2866). *)
+Theorem C08_access_request_ma_valid :
+  forall md5raw secret id auth pre post,
+    length auth = 16%nat -> Forall (fun a => ma_like a = false) pre ->
+    exists req,
+      build_request md5raw secret 1 id auth (pre ++ (80, zeros16) :: post) = Some req /\
+      sub 4 16 req = auth /\ ma_ok_asis md5raw secret req = true.
+Proof. exact access_request_ma_valid. Qed.
+Print Assumptions C08_access_request_ma_valid.
+
+Theorem C08_accounting_request_auth_valid :
+  forall md5raw secret id auth attrs,
+    Forall (fun a => ma_like a = false) attrs ->
+    exists req, build_request md5raw secret 4 id auth attrs = Some req /\ req_auth_ok md5raw secret req = true.
+Proof. exact accounting_request_auth_valid. Qed.
+Print Assumptions C08_accounting_request_auth_valid.
+
+Example C08_requests_nonvacuous :
+  Forall (fun a => ma_like a = false) [(1, [97; 98]); (80, [1; 2; 3])] /\
+  exists req, build_request toy ex_secret 1 7 (repeat 17 16) ([(1, [97; 98]); (80, [1; 2; 3])] ++ (80, zeros16) :: [(55, [0; 0; 0; 1])]) = Some req
+              /\ find_attr80 req = Some 31%nat /\ length req = 53%nat.
+Proof. split; [repeat constructor|]. eexists. split; [vm_compute; reflexivity|]. vm_compute. split; reflexivity. Qed.
+Print Assumptions C08_requests_nonvacuous.
